@@ -110,8 +110,13 @@ class WideGen(Gen):
     def term(self, depth):
         r = self.r
         if depth > 0 and r.random() < 0.12:
-            n = r.choice([3, 4, 5])
-            return (r.choice(['Concat', 'Either']), ('args',) + tuple(self.term(depth - 1) for _ in range(n)))
+            n = r.choice([3, 4, 5, 6])
+            args = [self.term(depth - 1) for _ in range(n)]
+            if r.random() < 0.3:                       # an empty operand at some position among many
+                args[r.randrange(n)] = r.choice([('Pregex', ()), ('str', ()), ('Exactly', ('str', (97,)), ('i', 0))])
+            return (r.choice(['Concat', 'Either', 'Either', 'Enclose']), ('args',) + tuple(args))
+        if depth > 0 and r.random() < 0.04:            # counted repetition of an empty operand
+            return (r.choice(['AtLeast', 'AtMost']), r.choice([('Pregex', ()), ('str', ())]), self.bound(), r.random() < 0.5)
         return Gen.term(self, depth)
 
 
